@@ -9,6 +9,7 @@ import (
 	"bytes"
 	"errors"
 	"fmt"
+	"io"
 	"io/ioutil"
 	"os"
 	"time"
@@ -22,6 +23,7 @@ import (
 	"github.com/bbva/qed/storage"
 	"github.com/bbva/qed/zzverif/models"
 	"github.com/bbva/qed/zzverif/rt"
+	"github.com/hashicorp/go-msgpack/codec"
 	"github.com/hashicorp/raft"
 )
 
@@ -95,6 +97,28 @@ func zzDecodeMsgPack(buf []byte, out interface{}) error {
 		return errors.New("codec contract: unsupported target")
 	}
 	return nil
+}
+
+// The same contract one level down, for code that drives the msgpack library directly:
+// redirect targets of codec.NewEncoder and (*codec.Encoder).Encode.
+var zzEncW map[*codec.Encoder]io.Writer
+
+func zzCodecNewEncoder(w io.Writer, h codec.Handle) *codec.Encoder {
+	if zzEncW == nil {
+		zzEncW = map[*codec.Encoder]io.Writer{}
+	}
+	e := &codec.Encoder{}
+	zzEncW[e] = w
+	return e
+}
+
+func zzCodecEncode(e *codec.Encoder, v interface{}) error {
+	b, err := zzEncodeMsgPack(v)
+	if err != nil {
+		return err
+	}
+	_, err = zzEncW[e].Write(b)
+	return err
 }
 
 // ---- replication model: committed entries are delivered to every live replica's real Apply in index order ----
